@@ -333,7 +333,58 @@ def rule_r7(p, res):
     r.check("if 0 < %s <= self.n_components:" % val in s and "self._n_active_components = int(%s)" % val in s, st, st.node, "the active count must end up within 1..n_components")
 
 
-RULES = [rule_r1, rule_r2, rule_r3, rule_r4, rule_r5, rule_r6, rule_r7]
+def rule_r8(p, res):
+    r = res.rule("C10.R8", "every variance ratio is taken against the original variance (kept + trimmed); model methods never write into the arrays they are given")
+    c = p.cls("PCAVectorModel")
+    n = 0
+    for name, f in sorted(c.methods.items()):
+        if not name.endswith("_ratio") or name.startswith("plot"):
+            continue
+        rets = returns_of(f.node)
+        if len(rets) != 1 or rets[0].value is None:
+            continue
+        v = expand(rets[0].value, Defs(f.node))
+        n += 1
+        r.instance(f)
+        if isinstance(v, ast.BinOp) and isinstance(v.op, ast.Div):
+            r.check(norm(v.right) == "self.original_variance()", f, rets[0], "%s divides by `%s`: a ratio of variance must be taken against the original variance (kept plus trimmed eigenvalues), "
+                    "otherwise it is renormalised as soon as something has been trimmed and no longer agrees with variance_ratio()" % (f.short, norm(v.right)), {"ratio": f.short})
+        elif isinstance(v, ast.Call) and any(isinstance(k.func, ast.Attribute) and k.func.attr.endswith("_ratio") for k in ast.walk(v) if isinstance(k, ast.Call)):
+            r.ok({"ratio": f.short, "via": norm(v)[:40]})
+        else:
+            raise AnalysisError("C10.R8: the form of %s (`%s`) is not recognised" % (f.short, norm(v)[:60]))
+    if n < 6:
+        raise AnalysisError("C10.R8: only %d ratio methods found (floor 6)" % n)
+    # no model method mutates an array argument
+    from ..effects import get_effects
+    eff = get_effects(p)
+    m = 0
+    for cn in ("LinearVectorModel", "MeanLinearVectorModel", "PCAVectorModel", "PCAModel"):
+        cls = p.cls(cn)
+        names = set()
+        for b in cls.mro:
+            names |= set(getattr(b, "methods", {}))
+        for name in sorted(names):
+            if name.startswith("__") or name in ("increment", "orthonormalize_against_inplace") or name.startswith(("plot", "view", "_view")):
+                continue
+            f = p.lookup(cls, name)
+            if f is None or len(f.params) < 2:
+                continue
+            m += 1
+            r.instance("%s@%s" % (f.short, cn))
+            sm = eff.summary(f, cls)
+            for prm in f.params[1:]:
+                es = [e for e in sm.on(prm) if e.kind == "mutate"]
+                for e in es[:1]:
+                    r.violation(f, e.node if e.func is f else f.node, "%s (on %s) writes into its argument `%s` in place: the caller's array (weights, vectors) is changed by a query, a second "
+                                "call with the same array gives a different answer" % (f.short, cn, prm))
+                if not es:
+                    r.ok()
+    if m < 40:
+        raise AnalysisError("C10.R8: only %d model methods analysed (floor 40)" % m)
+
+
+RULES = [rule_r1, rule_r2, rule_r3, rule_r4, rule_r5, rule_r6, rule_r7, rule_r8]
 
 WITNESSES = [
     Witness("C10.W1", "menpo/model/linear.py", "LinearVectorModel.project_vectors", "np.dot(vectors, self.components.T)", "np.dot(vectors, self.components)", rule="C10.R6", construct="project_vectors"),
@@ -355,4 +406,8 @@ WITNESSES = [
 WITNESSES += [
     Witness("C10.W12", "menpo/model/pca.py", "PCAVectorModel.noise_variance", "np.hstack((self._eigenvalues[self.n_active_components:], self._trimmed_eigenvalues)).mean()", "self._eigenvalues[self.n_active_components:].mean()",
             rule="C10.R1", construct="noise_variance", note="seeded change R3-C10-C"),
+]
+
+WITNESSES += [
+    Witness("C10.W13", "menpo/model/pca.py", "PCAVectorModel.eigenvalues_ratio", "self.eigenvalues / self.original_variance()", "self.eigenvalues / self._total_variance()", rule="C10.R8", construct="eigenvalues_ratio", note="seeded change R4-C10-A"),
 ]
